@@ -26,6 +26,7 @@ type genProfile struct {
 	stallFirst     bool // half of the cases begin with a stalled consumer
 	concVoting     bool // concurrent groups: mostly overlapping multi-target votes at the voting round
 	racePairs      bool // most concurrent groups are a light and a heavy caller for the same block hash
+	hostileFetch   bool // fetch answers may carry validator lists that differ from the hashes in the header
 	lostHeader     bool // one case in eight contains: a proposal lost in transit, votes for it, a nil round, the fetch answer, votes for it again
 }
 
@@ -251,6 +252,9 @@ func genOp(t *rapid.T, cfg simCfg, p genProfile, depth int) Op {
 		}
 	case "fetch":
 		op.D = rapid.IntRange(0, 3).Draw(t, "fetchidx")
+		if p.hostileFetch {
+			op.V = weighted(t, "fetchvariant", []int{0, 1, 2}, []int{2, 2, 1})
+		}
 	case "time":
 		op.N = rapid.IntRange(1, 50).Draw(t, "ticks")
 	}
@@ -271,6 +275,18 @@ func genCase(t *rapid.T, p genProfile) simCase {
 			{K: "vote", Kind: kind, T: []VT{{T: 50, S: full}}},
 		}
 		at := rapid.IntRange(0, len(ops)).Draw(t, "lost-at")
+		ops = append(ops[:at:at], append(seq, ops[at:]...)...)
+	}
+	if p.hostileFetch && rapid.IntRange(0, 3).Draw(t, "fetch-commit-macro") == 0 {
+		// a proposal lost in transit gets votes, is fetched (possibly with forged lists) and committed
+		full := fullMask(cfg.N)
+		seq := []Op{
+			{K: "ph", NS: true, P: rapid.IntRange(0, cfg.N-1).Draw(t, "fc-proposer"), D: rapid.IntRange(0, 3).Draw(t, "fc-data"), V: rapid.SampledFrom([]int{phFresh, phFresh, phAltNext}).Draw(t, "fc-phv")},
+			{K: "vote", Kind: 0, T: []VT{{T: 50, S: full}}},
+			{K: "fetch", D: 99, V: weighted(t, "fc-variant", []int{0, 1, 2}, []int{1, 3, 2})},
+			{K: "vote", Kind: 1, T: []VT{{T: 50, S: full}}},
+		}
+		at := rapid.IntRange(0, len(ops)).Draw(t, "fc-at")
 		ops = append(ops[:at:at], append(seq, ops[at:]...)...)
 	}
 	if p.stallFirst {
